@@ -137,7 +137,21 @@ theorem decNames_rt (names : List Bytes) (hl : (namesBytes names).length < 2^31)
   rw [i32nn_le _ hl]
   simp only [List.take_left', List.drop_left']
   rw [namesGo_all names [] (by simpa using hnd) hfree]
-  simp
+  -- the writer's names block has exactly `l_nm` bytes: the `Take` is used up (fix 125ecd7)
+  have hfull : ¬ (namesBytes names ++ r).length < (namesBytes names).length := by
+    rw [List.length_append]; omega
+  simp only [hfull, if_false, List.nil_append]
+
+/-- /repo `fix:` 125ecd7: a names block with fewer than `l_nm` bytes before the end of the input is
+an error whatever the bytes that are there (`UnexpectedEof`, or the parse error of what is there) -/
+theorem decNames_short (l : Nat) (hl : l < 2^31) (bs : Bytes) (h : bs.length < l) :
+    ∃ e, decNames (le 4 l ++ bs) = .error e := by
+  unfold decNames
+  rw [i32nn_le _ hl]
+  simp only
+  cases namesGo (bs.take l) [] [] with
+  | error e => exact ⟨e, rfl⟩
+  | ok ns => exact ⟨.eof, by simp only [h, if_true]⟩
 
 theorem decColEnd_rt (h : Header)
     (hw : if h.format.specialized then h.colEnd = none
